@@ -93,7 +93,14 @@ KINDS = [
                           ["try:", "    mon.write(\"C\")", "except Exception:", "    mon.write(\"D\")", "mon.write(\"E\")"]),
     ("if_stmt",           ["if x > 0:", "    mon.write(\"C\")"], ["mon.write(\"C\")"]),
     ("while_stmt",        ["while x < 3:", "    x += 1"], ["x += 1"]),
+    # documented host-side methods of SerialMonitor (README: connect(port), close()): still skipped silently
+    ("serial_host_call",  ["mon.close()"], []),
 ]
+
+# reference lines that differ by context: since the repair "fix: reject statements the transpiler cannot translate
+# instead of dropping them" a `def` that is not at column 0 is rejected, so the reference of the decorator probe
+# can keep the `def` only at the top level
+REPL_BY_CONTEXT = {("decorator", c): ["mon.write(\"C\")"] for c in ("Nested", "Func", "MainLoop")}
 
 KIND_IDS = [k[0] for k in KINDS]
 
@@ -105,7 +112,7 @@ def _ind(lines, n):
 def build(kind, context, with_probe=True):
     """-> source text of the script for (kind, context); with_probe=False gives the reference script."""
     kid, probe, repl = next(k for k in KINDS if k[0] == kind)
-    mid = probe if with_probe else repl
+    mid = probe if with_probe else REPL_BY_CONTEXT.get((kind, context), repl)
     core = ["mon.write(\"A\")"] + list(mid) + ["mon.write(\"B\")"]
     if context == "Top":
         body = core
